@@ -85,8 +85,10 @@ def o1(W, ob):
 
 def o2(W, ob):
     """each bounding construct, checked structurally"""
-    # trim-before-return: C12.O6
+    # trim-before-return: C12.O6, against the documented bound
     c12.o6(W, ob)
+    mq = W.const('MAX_EVENT_QUEUE_SIZE')
+    ob.check(mq == 100, 'constants|MAX_EVENT_QUEUE_SIZE', 'the event queue bound is the documented 100', 'MAX_EVENT_QUEUE_SIZE = %s, the documented bound is 100' % mq, None)
     # drained-by-poll / drained-by-send_all_messages
     po = W.fn(UDP + '::poll')
     cx = W.ctx(po)
